@@ -10,7 +10,7 @@ import warnings
 
 LEVEL = "model_checking"
 RULE = ("Sequential: all ordered trees with <= N nodes over node kinds {extract(wc, rc) x raises?, extract_child(for_task) x "
-        "raises?, extract_outermost(wc, rc) x raises?, fill_context (elaborate_context hook), fill_context of a generator-based manager, exiting or not (unwrap_context_generator hook; for the exiting one the glue performs a nested frame lookup first)}; each node is executed from inside the unwrap hook of its "
+        "raises?, extract_outermost(wc, rc) x raises?, fill_context (elaborate_context hook), fill_context of a generator-based manager, exiting or not (unwrap_context_generator hook; for the exiting one the glue performs a nested frame lookup first), a look from inside a fresh contextvars.Context on the same thread (same options), a look from another thread running in a copy of this thread's contextvars context (must be 'outside')}; each node is executed from inside the unwrap hook of its "
         "parent (the root from outside any extraction); before/after every child the hook records what is visible through the "
         "public API: (contexts present on a probe frame, extract_child(for_task=True) populated) or 'outside' when extract_child "
         "refuses. Reference model: a stack of option pairs (state = stack contents, transition = one node entry/exit). "
@@ -148,6 +148,22 @@ def world():
             elif kind == "F":
                 c = Context(obj=FW(rec), is_async=False)
                 stackscope.fill_context(c)
+            elif kind == "V":
+                # the same thread, but another contextvars.Context (what a callback scheduled through an event loop, or
+                # another greenlet, runs in): the options are the thread's, so nothing changes
+                import contextvars
+                rec["log"].append(("ctx", contextvars.Context().run(see, rec)))
+            elif kind == "T":
+                # another thread that runs in a COPY of this thread's contextvars context (the to_thread pattern): the
+                # options are scoped to the extracting thread only
+                import contextvars
+                out = []
+                cctx = contextvars.copy_context()
+                rec2 = {"log": [], "problems": rec["problems"], "gate": None}
+                th = threading.Thread(target=lambda: out.append(cctx.run(see, rec2)))
+                th.start()
+                th.join(30)
+                rec["log"].append(("thread", out[0] if out else "no answer"))
             elif kind == "G":
                 # a generator-based manager whose function has an unwrap_context_generator hook; when the context is
                 # exiting the contextlib glue has to look the manager's frame up by itself before it can call the hook
@@ -256,6 +272,10 @@ def reference(script):
                 stack.append((True, False))
                 log.append(("fill", top()))
                 stack.pop()
+        elif kind == "V":
+            log.append(("ctx", top()))
+        elif kind == "T":
+            log.append(("thread", "outside"))
         elif kind == "G":
             if stack:
                 log.append(("ucg", top()))
@@ -281,6 +301,7 @@ def node_kinds(tier):
         ks += [("O", False, True, False), ("O", True, False, True)]
         ks.append(("F",))
         ks.append(("G", True))
+        ks += [("V",), ("T",)]
     else:
         for wc, rc in opts:
             ks.append(("E", wc, rc, False))
@@ -289,6 +310,7 @@ def node_kinds(tier):
         ks += [("O", False, True, False), ("O", True, False, True)]
         ks.append(("F",))
         ks += [("G", False), ("G", True)]
+        ks += [("V",), ("T",)]
     return ks
 
 
@@ -299,14 +321,14 @@ def forests(n, kinds):
         return
     for first_size in range(1, n + 1):
         for k in kinds:
-            if k[0] in ("F", "G"):
+            if k[0] in ("F", "G", "V", "T"):
                 if first_size != 1:
                     continue
                 subs = [[]]
             else:
                 subs = forests(first_size - 1, kinds)
             for sub in subs:
-                first = list(k) + [sub] if k[0] not in ("F", "G") else list(k)
+                first = list(k) + [sub] if k[0] not in ("F", "G", "V", "T") else list(k)
                 for rest in forests(n - first_size, kinds):
                     yield [first] + rest
 
